@@ -10,7 +10,7 @@ evaluated over the exact field `Q8 = ℚ(ζ₈)`.
 
 * `prims_checked` — one `decide +kernel`: for every parameterless primitive that claims
   `is_stabilizer`, the matrix is unitary, and for EVERY Pauli string on its qubits the table row
-  `(flip, ops')` satisfies `G·P·Gᴴ = ±P'` and `G·P = ±P'·G`.  (The claiming primitives have 1 or 2
+  `(flip, ops')` satisfies `G·P·Gᴴ = ±P'`.  (The claiming primitives have 1 or 2
   qubits: 9×4 + 4×16 = 100 strings — the whole quantifier.)
 * `table_shape` — an entry that does not claim has no rows (so its `conjugate` is the default
   `NotAStabilizer`), an entry that claims has a row for each of the `4^arity` strings.
@@ -67,8 +67,7 @@ def checkStringWith (M : LMat Q8) (pm : List Pauli → LMat Q8) (g : GateTerm Em
   match conjugate g ops with
   | .ok (flip, ops') =>
     decide (ops'.length = nrBits g) &&
-    decide (conjBy Empty M (pm ops) = signed flip (pm ops')) &&
-    decide (LMat.mul M (pm ops) = signed flip (LMat.mul (pm ops') M))
+    decide (conjBy Empty M (pm ops) = signed flip (pm ops'))
   | .error _ => false
 
 def checkPrimWith (M : LMat Q8) (pm : List Pauli → LMat Q8) (g : GateTerm Empty) : Bool :=
@@ -207,7 +206,7 @@ theorem prim_exact (g : GateTerm Empty) (hg : IsPrim g) (hs : isStabilizer g = t
     IsUnitary Empty (nrBits g) (mat g) ∧
     ∀ ops : List Pauli, ops.length = nrBits g →
       ∃ flip ops', conjugate g ops = .ok (flip, ops') ∧ ops'.length = nrBits g ∧
-        IsConj Empty (mat g) ops flip ops' ∧ Intertwines Empty (mat g) ops flip ops' := by
+        IsConj Empty (mat g) ops flip ops' := by
   have h := List.all_eq_true.1 prims_checked g (mem_constPrims g hg)
   simp only [checkPrim, checkPrimWith, hs, Bool.not_true, Bool.false_or, Bool.and_eq_true] at h
   obtain ⟨hu, hall⟩ := h
@@ -217,11 +216,11 @@ theorem prim_exact (g : GateTerm Empty) (hg : IsPrim g) (hs : isStabilizer g = t
   · intro ops hl
     have hm : ops ∈ allStrings (nrBits g) := hl ▸ mem_allStrings ops
     have hc := List.all_eq_true.1 hall ops hm
-    unfold checkString at hc
+    unfold checkStringWith at hc
     split at hc
     · rename_i flip ops' heq
       simp only [Bool.and_eq_true, decide_eq_true_eq] at hc
-      exact ⟨flip, ops', heq, hc.1.1, hc.1.2, hc.2⟩
+      exact ⟨flip, ops', heq, hc.1, hc.2⟩
     · exact absurd hc (by simp)
 
 /-! ## shape of the generated table -/
